@@ -425,3 +425,81 @@ Lemma slot_reuse_excluded_lemma :
   lrun true true (linit 2 1)
     [LConnOpen 0 0; LApi (ENewEnd 0); LApi (EAccBegin 0 [1%N]); LApi (EAccEnd 0); LAbort 0; LFdClosed 0] = None.
 Proof. vm_compute. reflexivity. Qed.
+
+(* ================= 5. nothing waits forever for the lock ================= *)
+Definition end_event (t : nat) (c : cthread) : event :=
+  match ct_pc c with
+  | PAccIn _ _ => EAccEnd t
+  | PTickIn _ => ETickEnd t
+  | PCloseIn _ => ECloseEnd t
+  | _ => ENewEnd t
+  end.
+
+(* a goroutine inside a downstream call (it holds the read lock) can always complete it *)
+Lemma reader_can_leave_lemma : forall st t c,
+  INV st -> get_thr st t = Some c -> in_lock c = true ->
+  exists st', step true st (end_event t c) = Some st'.
+Proof.
+  intros st t c I Ht Hin. pose proof (i_thr _ I _ _ Ht) as Hok.
+  destruct c as [n h pc]. unfold thr_ok in Hok. unfold end_event. simpl in *.
+  destruct pc; try discriminate Hin; destruct h; try contradiction; unfold step; rewrite Ht; eauto.
+  destruct (new_sink st g n t). eauto.
+Qed.
+
+(* reload(): past Lock() it can always take its next step; at Lock() it proceeds as soon as no reader is
+   left; and while readers are left, one of them can leave *)
+Lemma reload_progress_lemma : forall st,
+  INV st ->
+  (rl_post (st_rl st) = true -> exists st', step true st ERlStep = Some st') /\
+  (st_rl st = RWantLock -> st_readers st = 0 -> exists st', step true st ERlLock = Some st') /\
+  (st_rl st = RWantLock -> st_readers st <> 0 ->
+     exists t c st', get_thr st t = Some c /\ in_lock c = true /\ step true st (end_event t c) = Some st').
+Proof.
+  intros st I. split; [|split].
+  - intros Hp. unfold step. destruct (st_rl st); try discriminate; eauto.
+    destruct (new_sink st (st_cur st) j (nth j (st_addrs st) 0)). eauto.
+  - intros Er H0. unfold step. rewrite Er. pose proof (i_wr _ I) as Hw. rewrite Er in Hw. simpl in Hw.
+    rewrite Hw, H0. eauto.
+  - intros Er Hn. rewrite (i_lock _ I) in Hn.
+    assert (Hex : exists t c, nth_error (st_thr st) t = Some c /\ in_lock c = true).
+    { clear -Hn. unfold count in Hn. induction (st_thr st) as [|c l IH]; simpl in Hn; [congruence|].
+      destruct (in_lock c) eqn:E.
+      - exists 0, c. auto.
+      - destruct (IH Hn) as (t & c' & H1 & H2). exists (S t), c'. auto. }
+    destruct Hex as (t & c & Ht & Hin). destruct (reader_can_leave_lemma st t c I Ht Hin) as [st' S].
+    exists t, c, st'. auto.
+Qed.
+
+(* when reload() does not hold the lock every idle open connection can start its next call *)
+Lemma reader_can_enter_lemma : forall st t n,
+  INV st -> st_writer st = false -> get_thr st t = Some (mkThr n HOpen PIdle) ->
+  (forall rs, exists st', step true st (EAccBegin t rs) = Some st') /\
+  (exists st', step true st (ETickBegin t) = Some st') /\
+  (exists st', step true st (ECloseBegin t) = Some st').
+Proof.
+  intros st t n I Hw Ht. destruct (open_idle_slot _ _ _ I Ht) as [s Hs].
+  repeat split; intros; unfold step; rewrite Ht, Hw, Hs; eauto.
+Qed.
+
+Lemma invariant_lemma : forall (nthr maxn : nat) (evs : list event) (st : state),
+  grun true (init nthr maxn) evs = Some st -> INV st.
+Proof. intros nthr maxn evs st H. exact (grun_inv evs _ _ (inv_init nthr maxn) H). Qed.
+
+Lemma progress_lemma : forall (nthr maxn : nat) (evs : list event) (st : state),
+  grun true (init nthr maxn) evs = Some st ->
+  (forall t c, get_thr st t = Some c -> in_lock c = true -> exists st', step true st (end_event t c) = Some st') /\
+  (rl_post (st_rl st) = true -> exists st', step true st ERlStep = Some st') /\
+  (st_rl st = RWantLock -> st_readers st = 0 -> exists st', step true st ERlLock = Some st') /\
+  (st_rl st = RWantLock -> st_readers st <> 0 ->
+     exists t c st', get_thr st t = Some c /\ in_lock c = true /\ step true st (end_event t c) = Some st') /\
+  (st_writer st = false -> forall t n, get_thr st t = Some (mkThr n HOpen PIdle) ->
+     (forall rs, exists st', step true st (EAccBegin t rs) = Some st') /\
+     (exists st', step true st (ETickBegin t) = Some st') /\
+     (exists st', step true st (ECloseBegin t) = Some st')).
+Proof.
+  intros nthr maxn evs st H. pose proof (invariant_lemma _ _ _ _ H) as I.
+  destruct (reload_progress_lemma st I) as (P1 & P2 & P3).
+  split; [intros t c; apply reader_can_leave_lemma; exact I|].
+  split; [exact P1|]. split; [exact P2|]. split; [exact P3|].
+  intros Hw t n Ht. apply (reader_can_enter_lemma st t n I Hw Ht).
+Qed.
